@@ -14,6 +14,10 @@ Transformations (each preserves behaviour by construction):
   rename_locals every local of a function that has no nested function gets the suffix `_r` (parameters excluded)
   nest_and      `if a and b: X` (no else)  ->  `if a: if b: X`
   alias_final   `self.<final attr>` used twice or more in a function is read once into a local at the top (final: only assigned in __init__)
+  flag_local    `if <side-effect free test>:` -> `flag_N = <test>` followed by `if flag_N:`
+  pop_drop      `if k in X: del X[k]` -> `X.pop(k, None)`
+  guard_return  a function ending in `if c: A` -> `if not c: return` followed by A
+  else_dedent   `if c: …; return  else: B` -> the else branch is dedented after the if
 """
 
 import ast
@@ -80,6 +84,92 @@ class NestAnd(ast.NodeTransformer):
         if not n.orelse and isinstance(n.test, ast.BoolOp) and isinstance(n.test.op, ast.And) and len(n.test.values) == 2:
             inner = ast.If(test=n.test.values[1], body=n.body, orelse=[])
             return ast.copy_location(ast.If(test=n.test.values[0], body=[ast.copy_location(inner, n)], orelse=[]), n)
+        return n
+
+
+class FlagLocal(ast.NodeTransformer):
+    """`if a.b == c:` -> `flag_N = a.b == c; if flag_N:` (side-effect free tests only; not in loops' own tests, not elif)"""
+    def __init__(self):
+        self.k = 0
+
+    def _body(self, body):
+        out = []
+        for st in body:
+            if isinstance(st, ast.If) and _side_effect_free(st.test) and not isinstance(st.test, (ast.Name, ast.Constant)):
+                self.k += 1
+                name = f'flag_{self.k}'
+                out.append(ast.copy_location(ast.Assign(targets=[ast.Name(id=name, ctx=ast.Store())], value=st.test), st))
+                st.test = ast.copy_location(ast.Name(id=name, ctx=ast.Load()), st)
+            out.append(st)
+        return out
+
+    def generic_visit(self, n):
+        super().generic_visit(n)
+        for fld in ('body', 'orelse', 'finalbody'):
+            v = getattr(n, fld, None)
+            if isinstance(v, list) and v and isinstance(v[0], ast.stmt):
+                if fld == 'orelse' and isinstance(n, ast.If) and len(v) == 1 and isinstance(v[0], ast.If):
+                    continue        # elif chain: keep
+                setattr(n, fld, self._body(v))
+        return n
+
+
+def _side_effect_free(e):
+    for w in ast.walk(e):
+        if isinstance(w, (ast.Call, ast.Yield, ast.YieldFrom, ast.Await, ast.NamedExpr, ast.Lambda, ast.ListComp, ast.SetComp, ast.DictComp, ast.GeneratorExp)):
+            if isinstance(w, ast.Call) and isinstance(w.func, ast.Name) and w.func.id in ('isinstance', 'len'):
+                continue
+            return False
+    return True
+
+
+class PopDrop(ast.NodeTransformer):
+    """`if k in X: del X[k]` (no else) -> `X.pop(k, None)`"""
+    def visit_If(self, n):
+        self.generic_visit(n)
+        if not n.orelse and len(n.body) == 1 and isinstance(n.body[0], ast.Delete) and len(n.body[0].targets) == 1 and isinstance(n.body[0].targets[0], ast.Subscript) \
+                and isinstance(n.test, ast.Compare) and len(n.test.ops) == 1 and isinstance(n.test.ops[0], ast.In):
+            t = n.body[0].targets[0]
+            if ast.dump(t.value) == ast.dump(n.test.comparators[0]) and ast.unparse(t.slice) == ast.unparse(n.test.left) and _pure(n.test.left):
+                call = ast.Call(func=ast.Attribute(value=n.test.comparators[0], attr='pop', ctx=ast.Load()), args=[n.test.left, ast.Constant(value=None)], keywords=[])
+                return ast.copy_location(ast.Expr(value=call), n)
+        return n
+
+
+class GuardReturn(ast.NodeTransformer):
+    """A function whose last statement is `if c: A` (no else; A without a trailing need for fall-through) -> `if not c: return` + A"""
+    def visit_FunctionDef(self, fn):
+        self.generic_visit(fn)
+        if any(isinstance(x, (ast.Yield, ast.YieldFrom)) for x in ast.walk(fn)):
+            return fn
+        last = fn.body[-1]
+        if isinstance(last, ast.If) and not last.orelse and len(fn.body) > 1:
+            guard = ast.copy_location(ast.If(test=ast.UnaryOp(op=ast.Not(), operand=last.test), body=[ast.copy_location(ast.Return(value=None), last)], orelse=[]), last)
+            fn.body = fn.body[:-1] + [guard] + last.body
+        return fn
+
+
+class ElseDedent(ast.NodeTransformer):
+    """`if c: …; return X  else: B`  ->  `if c: …; return X`  B"""
+    def _body(self, body):
+        out = []
+        for st in body:
+            if isinstance(st, ast.If) and st.orelse and isinstance(st.body[-1], (ast.Return, ast.Raise, ast.Continue, ast.Break)) \
+                    and not (len(st.orelse) == 1 and isinstance(st.orelse[0], ast.If)):
+                rest = st.orelse
+                st.orelse = []
+                out.append(st)
+                out.extend(rest)
+            else:
+                out.append(st)
+        return out
+
+    def generic_visit(self, n):
+        super().generic_visit(n)
+        for fld in ('body', 'orelse', 'finalbody'):
+            v = getattr(n, fld, None)
+            if isinstance(v, list) and v and isinstance(v[0], ast.stmt):
+                setattr(n, fld, self._body(v))
         return n
 
 
@@ -162,13 +252,21 @@ def transform(src_text, kind, final=None):
         tree = RenameLocals().visit(tree)
     elif kind == 'alias_final':
         tree = AliasFinal(final or set()).visit(tree)
+    elif kind == 'flag_local':
+        tree = FlagLocal().visit(tree)
+    elif kind == 'pop_drop':
+        tree = PopDrop().visit(tree)
+    elif kind == 'guard_return':
+        tree = GuardReturn().visit(tree)
+    elif kind == 'else_dedent':
+        tree = ElseDedent().visit(tree)
     else:
         raise ValueError(kind)
     ast.fix_missing_locations(tree)
     return ast.unparse(tree) + '\n'
 
 
-KINDS = ['reformat', 'invert_if', 'demorgan', 'swap_compare', 'nest_and', 'rename_locals', 'alias_final']
+KINDS = ['reformat', 'invert_if', 'demorgan', 'swap_compare', 'nest_and', 'rename_locals', 'alias_final', 'flag_local', 'pop_drop', 'guard_return', 'else_dedent']
 
 
 def anchor_files():
